@@ -251,6 +251,12 @@ def render(lang: str, ex_lines: list[list[str]], e: dict, salt: int) -> dict:
     """Place the copies (already renamed) according to embedding e. Returns text, copy starts, closing count."""
     out: list[str] = []
     for b in range(e["before"]):
+        if b == 0 and e.get("guard") and lang == "python":
+            # a script entry guard of the same height as a filler function; what follows is module-level code again
+            n = salt * 10
+            out += ['if __name__ == "__main__":', f"    filler_main_{n} = len(__name__)",
+                    f"    filler_use_{n} = filler_main_{n}", "", ""]
+            continue
         out += filler(lang, salt * 10 + b)
     closers: list[list[str]] = []
     levels = 0
